@@ -18,8 +18,21 @@ pub fn quiet_catch<R>(f: impl FnOnce() -> R + std::panic::UnwindSafe) -> std::th
     r
 }
 
-/// remember what the oracle is looking at
+/// remember what the oracle is looking at.  When $VERIF_TRACE_AT names a file (set by `check` only when it
+/// re-runs an oracle that died: stack overflow, abort, hang), the marker is also written there, so that the
+/// case that killed the process can be read afterwards.
 pub fn at(replay: String) {
+    use std::io::{Seek, SeekFrom, Write};
+    static TRACE: std::sync::OnceLock<Option<std::sync::Mutex<std::fs::File>>> = std::sync::OnceLock::new();
+    let t = TRACE.get_or_init(|| std::env::var("VERIF_TRACE_AT").ok().and_then(|p| std::fs::File::create(p).ok()).map(std::sync::Mutex::new));
+    if let Some(m) = t {
+        if let Ok(mut f) = m.lock() {
+            let _ = f.seek(SeekFrom::Start(0));
+            let _ = f.set_len(0);
+            let _ = f.write_all(replay.as_bytes());
+            let _ = f.flush();
+        }
+    }
     CURRENT.with(|c| *c.borrow_mut() = replay);
 }
 
@@ -183,6 +196,97 @@ pub const NAME_POOL: &[&[u8]] = &[
     "\u{42f}\u{43d}\u{430}".as_bytes(), "a\u{15c}".as_bytes(), "\u{12f}".as_bytes(), "\u{203a}x".as_bytes(), "\u{62f}".as_bytes(), "\u{1f62f}".as_bytes(), "\u{100}".as_bytes(),
 ];
 
+/// tokens harvested from the literals of the library's own source, with case variants (gen/dict.py ->
+/// work/dict.txt, named by $VERIF_DICT): special words the implementation knows about and their near-misses
+pub fn dictionary() -> &'static Vec<Vec<u8>> {
+    static D: std::sync::OnceLock<Vec<Vec<u8>>> = std::sync::OnceLock::new();
+    D.get_or_init(|| {
+        let mut v: Vec<Vec<u8>> = Vec::new();
+        if let Ok(p) = std::env::var("VERIF_DICT") {
+            if let Ok(text) = std::fs::read_to_string(p) {
+                for l in text.lines() {
+                    if let Some(h) = l.trim().strip_prefix('x') {
+                        if h.len() % 2 == 0 && !h.is_empty() {
+                            if let Ok(b) = (0..h.len()).step_by(2).map(|i| u8::from_str_radix(&h[i..i + 2], 16)).collect::<Result<Vec<u8>, _>>() {
+                                v.push(b);
+                            }
+                        }
+                    }
+                }
+            }
+        }
+        v
+    })
+}
+
+/// dictionary words usable as a name / prefix payload: alphanumeric, at most 8 bytes
+pub fn dict_words() -> Vec<Vec<u8>> {
+    dictionary().iter().filter(|t| t.len() <= 8 && t.iter().all(|b| b.is_ascii_alphanumeric())).cloned().collect()
+}
+
+/// every spelling of the verbatim marker (2 x 2 x 2 separators) followed by `UNC`, server and share
+/// with either separator after each: the one exact spelling `\\?\` must be told from the other seven
+/// everywhere a prefix is read
+pub fn marker_unc_seeds() -> Vec<Vec<u8>> {
+    let mut v = Vec::new();
+    let sp = [b'\\', b'/'];
+    for m in 0..8usize {
+        let marker = [sp[m & 1], sp[(m >> 1) & 1], b'?', sp[(m >> 2) & 1]];
+        for a in sp {
+            for b in sp {
+                let mut x = marker.to_vec();
+                x.extend_from_slice(b"UNC");
+                x.push(a);
+                x.extend_from_slice(b"srv");
+                v.push(x.clone());
+                x.push(b);
+                x.extend_from_slice(b"shr");
+                v.push(x.clone());
+                x.push(a);
+                x.extend_from_slice(b"d");
+                x.push(b);
+                x.extend_from_slice(b"..");
+                v.push(x);
+            }
+        }
+        let mut y = marker.to_vec();
+        y.extend_from_slice(b"C:");
+        y.push(sp[(m >> 1) & 1]);
+        y.extend_from_slice(b"a/b");
+        v.push(y);
+        let mut z = marker.to_vec();
+        z.extend_from_slice(b"pics\\a\\.\\b/c");
+        v.push(z);
+    }
+    v
+}
+
+/// characters whose LOW BYTE is an ASCII byte the parsers treat specially (separators, dot, colon, the
+/// forbidden bytes, `?`, NUL) — in three planes: a `c as u8` truncation turns them into that byte
+pub fn low_byte_chars() -> Vec<String> {
+    let mut v = Vec::new();
+    for b in b"/\\.:?*\"<>|\0" {
+        for hi in [0x100u32, 0x4e00, 0x1f600] {
+            if let Some(c) = char::from_u32(hi + *b as u32) {
+                v.push(c.to_string());
+            }
+        }
+    }
+    v
+}
+
+/// Windows paths built around every dictionary word in every prefix position
+pub fn dict_win_paths() -> Vec<Vec<u8>> {
+    let mut v = Vec::new();
+    for w in dict_words() {
+        let s = String::from_utf8_lossy(&w).into_owned();
+        for pat in [r"\\?\{}", r"\\?\{}\", r"\\?\{}\s\h\x", r"\\?\{}\s", r"//?/{}/s/h/x", r"\\.\{}\x", r"\\{}\h\x", r"\\s\{}\x", r"{}\x", r"x\{}", r"x\{}.txt", r"C:\{}\y"] {
+            v.push(pat.replace("{}", &s).into_bytes());
+        }
+    }
+    v
+}
+
 /// mostly well-formed structured random path for encoding `win`
 pub fn random_path(rng: &mut Rng, win: bool) -> Vec<u8> {
     let mut v: Vec<u8> = Vec::new();
@@ -198,8 +302,13 @@ pub fn random_path(rng: &mut Rng, win: bool) -> Vec<u8> {
         }
     }
     let ncomp = rng.below(7);
+    let dw = dict_words();
     for i in 0..ncomp {
-        v.extend_from_slice(*rng.pick::<&[u8]>(NAME_POOL));
+        if !dw.is_empty() && rng.chance(1, 8) {
+            v.extend_from_slice(rng.pick::<Vec<u8>>(&dw[..]));
+        } else {
+            v.extend_from_slice(*rng.pick::<&[u8]>(NAME_POOL));
+        }
         if i + 1 < ncomp || rng.chance(1, 3) {
             let m = if rng.chance(1, 5) { 3 } else { 1 };
             let n = 1 + rng.below(m);
@@ -317,6 +426,17 @@ pub fn dom_unix(tier: &str, seed: u64) -> Vec<Vec<u8>> {
     for _ in 0..(if t { 3_000 } else { 300 }) {
         v.push(long_random_path(&mut rng, false));
     }
+    for c in low_byte_chars() {
+        v.push(format!("/d/a{}b.x{}/", c, c).into_bytes());
+    }
+    for w in dict_words() {
+        let mut a = b"/d/".to_vec();
+        a.extend_from_slice(&w);
+        v.push(a.clone());
+        a.extend_from_slice(b".x/");
+        v.push(a);
+        v.push(w);
+    }
     with_extras(v)
 }
 
@@ -362,6 +482,11 @@ pub fn dom_win(tier: &str, seed: u64) -> Vec<Vec<u8>> {
     }
     for _ in 0..(if t { 3_000 } else { 300 }) {
         v.push(long_random_path(&mut rng, true));
+    }
+    v.extend(dict_win_paths());
+    v.extend(marker_unc_seeds());
+    for c in low_byte_chars() {
+        v.push(format!("d\\a{}b.x{}", c, c).into_bytes());
     }
     with_extras(v)
 }
